@@ -66,7 +66,7 @@ Definition snap_rtt (acc : list probe) (h : hop) : hop :=
 
 Definition check_eng (prop : Z) (inp impl : sx) : sx :=
   match inp, impl with
-  | L [A 1; A ser; A first; A last; A timeout; A poll; A delay; L script],
+  | L [A 1; A ser; A first; A last; A timeout; A poll; A delay; L script; A cancel_at],
     L [A status; L hops; L acc; L sends; A elapsed] =>
       match dec_list dec_entry script, dec_list dec_hop hops, dec_list dec_probe acc, dec_list dec_send sends with
       | Some script, Some hops0, Some acc, Some sends =>
@@ -76,6 +76,18 @@ Definition check_eng (prop : Z) (inp impl : sx) : sx :=
           let cls := (if serial then 1 else 0) + 2 * Z.min 7 (Z.of_nat (length acc)) + 16 * (if existsb p_dest acc then 1 else 0) in
           (* --- spec search on the implementation's own observables *)
           let valid_all := forallb (valid_probe first last) acc in
+          let natural := if serial then serial_run p script else parallel_run p script in
+          (* the caller's context is cancelled before the run would have ended by itself *)
+          let cut_short := (0 <? cancel_at) && match natural with TDone r => cancel_at <? tr_elapsed r | _ => false end in
+          if (0 <? cancel_at) && match natural with TDone _ => false | _ => true end
+          then verdict V_OK (cls + 192) [] (L [])   (* cancellation combined with an engine error / tie: not compared *)
+          else if cut_short then
+            (* C08: the cancellation error, within one poll interval plus one send delay *)
+            (if (status =? 4) && (elapsed <=? cancel_at + poll + delay) then verdict V_OK (cls + 128) [] (L [])
+             else if prop =? 8 then verdict V_SPECFAIL (cls + 128) [8; 1] (L [])
+             else if status =? 4 then verdict V_OK (cls + 128) [] (L [])
+             else verdict V_DIVERGE (cls + 128) [] (L [A (-5)]))
+          else
           let spec_fail : list Z :=
             if status =? 3 then [10]                          (* the engine panicked *)
             else if negb (status =? 0) then (if valid_all then [9] else [])   (* a run whose accepted replies are all in range must succeed *)
@@ -90,7 +102,7 @@ Definition check_eng (prop : Z) (inp impl : sx) : sx :=
           | _ :: _ => verdict V_SPECFAIL cls spec_fail (L [])
           | [] =>
               (* --- model = implementation *)
-              match (if serial then serial_run p script else parallel_run p script) with
+              match natural with
               | TTie => verdict V_OK (cls + 64) [] (L [])       (* simultaneous events: order undefined, case skipped *)
               | TDone r =>
                   let mh := match tr_slots r with Some s => to_hops first s | None => None end in
